@@ -259,7 +259,10 @@ func (m *SessionManager) RemoveSession(id uint16) {
 	defer m.mu.Unlock()
 
 	if session, ok := m.sessions[id]; ok {
-		delete(m.macToSession, session.ClientMAC.String())
+		// a newer session from the same MAC may own the index entry by now
+		if mac := session.ClientMAC.String(); m.macToSession[mac] == id {
+			delete(m.macToSession, mac)
+		}
 		delete(m.sessions, id)
 	}
 }
@@ -297,7 +300,9 @@ func (m *SessionManager) CleanupExpired(timeout time.Duration) int {
 		session.mu.RUnlock()
 
 		if inactive {
-			delete(m.macToSession, session.ClientMAC.String())
+			if mac := session.ClientMAC.String(); m.macToSession[mac] == id {
+				delete(m.macToSession, mac)
+			}
 			delete(m.sessions, id)
 			removed++
 			if m.onExpire != nil {
